@@ -2,6 +2,7 @@
 from __future__ import annotations
 
 import ast
+from ..core import utext
 import re
 
 from ..core import (AnalysisError, DefUse, Program, ancestors, call_name, norm,
@@ -115,7 +116,7 @@ def run(prog: Program, res: Result, tier: str) -> None:
                             f"{fname} returns `{norm(v)}`, not one of "
                             f"{sorted(allowed)}")
     top = prog.fn(f"{MOD}:connectivity2bond_orders")
-    t = ast.unparse(top.node)
+    t = utext(top.node)
     inst = "connectivity2bond_orders: integer copy of the input, result of _AC2BO returned"
     if "con_mat = np.array(connectivity_matrix, dtype=int)" in t and \
             re.search(r"BO_matrix, atomic_valence_electrons = _AC2BO\(\s*con_mat,", t) \
@@ -142,7 +143,7 @@ def run(prog: Program, res: Result, tier: str) -> None:
                     f"AC[i, j] == 1 (guards: {guards}): bond orders may be "
                     "raised between atoms that are not bonded")
     ua = prog.fn(f"{MOD}:_get_UA_pairs")
-    ut = ast.unparse(ua.node)
+    ut = utext(ua.node)
     inst = "_get_UA_pairs: pairs are combinations of _get_bonds(UA, AC)"
     if "bonds = _get_bonds(UA, AC)" in ut and \
             "itertools.combinations(bonds," in ut:
@@ -244,7 +245,7 @@ def check_dict_dir(prog: Program, res: Result) -> None:
     # RDKit atoms are created in graph.atoms order (declared coercion
     # ArrIdx == RdIdx for the charge / radical loops)
     mk = prog.fn("graph2rdmol:mol_graph_to_rdmol")
-    t = ast.unparse(mk.node)
+    t = utext(mk.node)
     inst = "mol_graph_to_rdmol adds RDKit atoms in graph.atoms order (ArrIdx == RdIdx)"
     if "for atom in graph.atoms:" in t and "atom_index = mol.AddAtom(rd_atom)" in t \
             and "idx_map_num_dict[atom_index] = atom" in t:
